@@ -50,10 +50,10 @@ META = {
 # ~100 s per hit.  The work of a *root-only* call (the only bp results outside the known class) is one column
 # generation, i.e. the work solve_cg does on the same instance (measured ratio <= 1.12, evidence size
 # 'bp-root-only-steps-per-100-cg-steps').  The bp limit is therefore set per case to 10x the events solve_cg needs
-# on the same input (floor 1M): deterministic, >= 8.9x everything outside the known class (a root-only call used at
+# on the same input (floor 0.3M, it only adds slack for tiny inputs): deterministic, >= 8.9x everything outside the known class (a root-only call used at
 # most 11 % of its limit over the quick and thorough corpora, evidence size 'bp-root-only-steps-per-100-limit'); a hit costs ~0.3 s.
 STEP_LIMIT_CG = 400_000_000
-BP_FACTOR, BP_FLOOR = 10, 1_000_000
+BP_FACTOR, BP_FLOOR = 10, 300_000
 
 USABLE = ("OPTIMAL", "FEASIBLE")
 
@@ -96,9 +96,16 @@ def _cs_sizes(draw, W, n, fam):
 @st.composite
 def instances(draw, tier="quick"):
     wmax, nmax = (20, 5) if tier == "thorough" else (16, 4)
-    family = draw(st.sampled_from(["uniform", "uniform", "frac", "frac", "frac", "dup", "tiny", "common-divisor", "edge"]))
+    family = draw(st.sampled_from(["uniform", "uniform", "frac", "frac", "frac", "dup", "tiny", "common-divisor", "many-copies", "edge"]))
     W = draw(st.integers(10 if family == "tiny" else 4, wmax))
-    if family == "common-divisor":
+    if family == "many-copies":
+        # small pieces (>= 4 copies per roll) with demands 3..6: the bounded-knapsack pricing needs several passes per
+        # piece and the best pattern mixes many copies (seeded change C17-r3-3: W=11, sizes [2,3], demands [5,4])
+        W = draw(st.integers(8, wmax))
+        n = draw(st.integers(2, 3))
+        sizes = [draw(st.integers(2 if W >= 8 and i == 0 else 1, max(2, W // 4))) for i in range(n)]
+        demands = [draw(st.integers(3, 6)) for _ in range(n)]
+    elif family == "common-divisor":
         # every size a multiple of g, roll width not: code that rescales the knapsack by gcd(sizes) must round the
         # capacity down (seeded change C17-r2-2 rounded to nearest: W=15, sizes [4,6], demands [2,1])
         g = draw(st.integers(2, 6))
@@ -134,10 +141,32 @@ def instances(draw, tier="quick"):
 
 @st.composite
 def pools(draw, tier="quick"):
-    family = draw(st.sampled_from(["cs-like", "cs-like", "maximal", "subpool", "subpool", "generic"]))
+    family = draw(st.sampled_from(["cs-like", "cs-like", "maximal", "subpool", "subpool", "generic", "units+composites", "units+composites"]))
     W, sizes = None, None
     homog = []
-    if family == "generic":
+    if family == "units+composites":
+        # all unit columns plus 2-4 multi-row columns (all-ones, a doubled pair, overlapping pairs, a 2-1-1 mix): the
+        # master LP has to pivot a variable out and back in within one phase (seeded change C17-r3-1: units +
+        # (1,1,1),(2,2,0), demands [4,1,2])
+        m = draw(st.integers(3, 4))
+        caps, fam = [None] * m, None
+        pool = [[int(i == j) for i in range(m)] for j in range(m)]
+        for _ in range(draw(st.integers(2, 4))):
+            kind = draw(st.sampled_from(["ones", "double-pair", "pair", "mix", "free"]))
+            i, j = draw(st.integers(0, m - 1)), draw(st.integers(0, m - 2))
+            j = j + 1 if j >= i else j
+            if kind == "ones":
+                c = [1] * m
+            elif kind == "double-pair":
+                c = [2 if r in (i, j) else 0 for r in range(m)]
+            elif kind == "pair":
+                c = [1 if r in (i, j) else 0 for r in range(m)]
+            elif kind == "mix":
+                c = [2 if r == i else 1 for r in range(m)]
+            else:
+                c = [draw(st.integers(0, 2)) for _ in range(m)]
+            pool.append(c)
+    elif family == "generic":
         m = draw(st.integers(1, 4))
         caps, fam = [None] * m, None
         k = draw(st.integers(1, 8 if tier == "thorough" else 6))
@@ -171,11 +200,16 @@ def pools(draw, tier="quick"):
     pool = uniq
     m = len(pool[0])
     dmax = 6
-    demands = [draw(st.integers(0, dmax if caps[i] is None else caps[i])) for i in range(m)]
+    if family == "units+composites":
+        demands = [draw(st.integers(1, 5)) for _ in range(m)]
+    else:
+        demands = [draw(st.integers(0, dmax if caps[i] is None else caps[i])) for i in range(m)]
     if not any(demands):
         demands[draw(st.integers(0, m - 1))] = draw(st.integers(1, 2))
     init = []
-    if family == "cs-like":
+    if family == "units+composites" and draw(st.booleans()):
+        init = list(range(m))  # the unit columns only (they come first in the pool)
+    elif family == "cs-like":
         # start exactly like the cutting-stock mode: the one-piece pattern of every demanded piece
         for j in range(m):
             if demands[j] > 0 and pool.index(homog[j]) not in init:
@@ -441,6 +475,41 @@ def small_scope(tier, wmax_quick=16, wmax_thorough=20):
                             yield {"family": "exhaustive", "W": W, "sizes": [s1, s2], "demands": [d1, d2], "num": "int", "seq": "list", "cg_max_iter": None}
 
 
+def small_pieces_scope(tier):
+    """Every instance with two small piece sizes 2 <= s1 <= s2 <= 5 (thorough <= 6), W = 7..16 (thorough ..20) and
+    demands 1..6 (thorough 1..8) each: many copies per roll, demands above the {1,2} of `small_scope`
+    (3 600 cases quick, 13 440 thorough).  The shape that exposes a bounded-knapsack pricing that stops adding copies
+    too early (seeded change C17-r3-3: W=11, sizes [2,3], demands [5,4]; 10 of the 3 600 cases)."""
+    thorough = tier == "thorough"
+    smax, wmax, dmax = (6, 20, 8) if thorough else (5, 16, 6)
+    for W in range(7, wmax + 1):
+        for s1 in range(2, smax + 1):
+            for s2 in range(s1, smax + 1):
+                for d1 in range(1, dmax + 1):
+                    for d2 in range(1, dmax + 1):
+                        yield {"family": "exhaustive-small-pieces", "W": W, "sizes": [s1, s2], "demands": [d1, d2], "num": "int", "seq": "list", "cg_max_iter": None}
+
+
+UNITS3 = [[1, 0, 0], [0, 1, 0], [0, 0, 1]]
+COMPOSITES3 = [[1, 1, 1], [1, 1, 0], [0, 1, 1], [1, 0, 1], [2, 2, 0], [0, 2, 2], [2, 0, 2], [2, 1, 1]]
+
+
+def units_composites_scope(tier):
+    """Custom mode, 3 rows: the three unit columns plus every subset of at most 2 (thorough 3) of the 8 composite
+    columns COMPOSITES3, initial columns = the units, every demand vector in {1..4}^3 (2 368 cases quick, 5 952
+    thorough).  Seeded change C17-r3-1 (simplex_phase keeps a left variable marked basic) shows in 8 of the 2 368
+    root-only solve_bp results, e.g. units + (1,1,1),(2,2,0) with demands [4,1,2]."""
+    import itertools
+
+    kmax = 3 if tier == "thorough" else 2
+    for k in range(kmax + 1):
+        for comp in itertools.combinations(COMPOSITES3, k):
+            for dem in itertools.product(range(1, 5), repeat=3):
+                yield {"family": "exhaustive-units+composites", "sizes_from": None, "W": None, "sizes": None,
+                       "pool": UNITS3 + [list(c) for c in comp], "init": [0, 1, 2], "demands": list(dem),
+                       "none_style": (sum(dem) + k) % 2 == 1, "col_type": "tuple", "cg_max_iter": None}
+
+
 # ----------------------------------------------------------------------------- known finding (DESIGN §5 row 20)
 def bp_after_branching(desc, v):
     """solve_bp result produced after branching (Result.iterations > 0).  Root-only bp results and every
@@ -457,6 +526,9 @@ SUBS = [
     Sub("bp_cutting_stock", run_bp, strategy=lambda tier: instances(tier), quick=200, thorough=800, workers_quick=6, crash="inconclusive"),
     Sub("cg_exhaustive_2pieces", run_cg, enumerate=lambda tier: small_scope(tier), workers_quick=8, crash="inconclusive"),
     Sub("bp_exhaustive_2pieces", run_bp, enumerate=lambda tier: small_scope(tier, wmax_quick=12, wmax_thorough=14), workers_quick=8, crash="inconclusive"),
+    Sub("cg_exhaustive_small_pieces", run_cg, enumerate=lambda tier: small_pieces_scope(tier), workers_quick=4, crash="inconclusive"),
+    Sub("cg_custom_exhaustive_units", run_cg_custom, enumerate=lambda tier: units_composites_scope(tier), workers_quick=2, crash="inconclusive"),
+    Sub("bp_custom_exhaustive_units", run_bp_custom, enumerate=lambda tier: units_composites_scope(tier), workers_quick=8, crash="inconclusive"),
     Sub("cg_custom_pricing", run_cg_custom, strategy=lambda tier: pools(tier), quick=300, thorough=2000, workers_quick=2, crash="inconclusive"),
     Sub("bp_custom_pricing", run_bp_custom, strategy=lambda tier: pools(tier), quick=250, thorough=1200, workers_quick=4, crash="inconclusive"),
 ]
